@@ -40,6 +40,7 @@ def verify(src, sid, prop):
     r = sh(["git", "-C", REPO, "worktree", "add", "--detach", wt, "HEAD"])
     if r.returncode:
         raise SystemExit("cannot create worktree: " + r.stderr)
+    merged = None
     rec = {"seed": sid, "property": prop, "verified_at_repo_head": sh(["git", "-C", REPO, "rev-parse", "--short", "HEAD"]).stdout.strip()}
     try:
         patch = os.path.join(src, "patch.diff")
@@ -50,6 +51,13 @@ def verify(src, sid, prop):
         rc0, out0 = run_demo(wt, demo)
         rec["demo_without_patch"] = {"rc": rc0, "tail": out0[-200:]}
         r = sh(["git", "-C", wt, "apply", os.path.abspath(patch)])
+        if r.returncode:
+            # written against an earlier HEAD (a fix: commit has touched the same lines since): three-way merge, then keep the merged patch
+            r = sh(["git", "-C", wt, "apply", "--3way", os.path.abspath(patch)])
+            if r.returncode == 0:
+                sh(["git", "-C", wt, "reset", "-q"])
+                rec["rebased"] = "three-way merged onto %s" % rec["verified_at_repo_head"]
+                merged = sh(["git", "-C", wt, "diff"]).stdout
         rec["patch_applies"] = r.returncode == 0
         if r.returncode:
             rec["apply_error"] = r.stderr[-300:]
@@ -69,6 +77,9 @@ def verify(src, sid, prop):
         dst = os.path.join(SEEDED, sid)
         os.makedirs(dst, exist_ok=True)
         shutil.copy(os.path.join(src, "patch.diff"), os.path.join(dst, "patch.diff"))
+        if merged:
+            shutil.copy(os.path.join(src, "patch.diff"), os.path.join(dst, "patch.orig.diff"))      # as the author wrote it
+            open(os.path.join(dst, "patch.diff"), "w").write(merged)                                # as verified on the current HEAD
         shutil.copy(os.path.join(src, "demo.py"), os.path.join(dst, "demo.py"))
         meta = {}
         try:
